@@ -24,8 +24,8 @@ CLAIM = ('Proved in Coq for the model, Numbers naming, direct mode, EVERY histor
          'everything a completed cleanup would have kept, nothing twice (C11_numbers_cleanup_kill_keeps_acked); a new writer '
          'with the same configuration succeeds in every operation, repairs the leftovers with its first record and leaves a tail '
          'of acknowledged ++ own records in the shape a run without kill leaves (C11_numbers_cleanup_kill_restart; side '
-         'conditions as in C07). All kill points of small histories are also enumerated in Coq against the plain oracles '
-         '(Flw/NumCleanupKillEx.v). ')
+         'conditions: the suffix does not end in .gz, the number of files closed by the killed writer fits into u32). All kill '
+         'points of small histories are also enumerated in Coq against the plain oracles (Flw/NumCleanupKillEx.v). ')
 THEOREMS = ["C11_numbers_kill_keeps_acked", "C11_numbers_kill_restart", "C11_dead_no_effect", "C11_kill_point", "C11_alive_effect", "C11_numbersdirect_kill_keeps_acked", "C11_numbersdirect_kill_restart", "C11_numbers_cleanup_kill_keeps_acked", "C11_numbers_cleanup_kill_restart"]
 TRUSTED = ["assumed: atomicity of single file-system calls under SIGABRT, no loss of written data in the page cache; the kill happens at "
            "the hook point immediately before a call, never inside one"]
